@@ -446,6 +446,72 @@ def _tuple_ops(body, op):
     return []
 
 
+def before_table_clauses(F, R, tree):
+    """Before-hook events on the deep path table of the routine that creates the World for the hook (attempt.BeforeTable): on every
+    path on which a hook is set, `Hook::Started(Before)` is sent exactly once and before anything of the user's runs (World::new, the
+    hook — also when one of them then fails or panics); `Hook::Passed(Before)` is sent exactly when World creation succeeded and the
+    hook returned without panicking, after it; without a hook nothing is sent and nothing runs."""
+    from . import attempt as AT
+    from . import deep as D
+    wn_roots = {}
+    for b in tree:
+        for s, t in b.calls(lambda t: callee_is(t, r"World::new$") or (callee_path(t) or "").endswith("as World>::new")):
+            wn_roots[F.root_fn(b).key] = F.root_fn(b)
+    b_step, fo = run_step_body(F, tree)
+    step_family = {x.key for x in roles.family(F, F.root_fn(b_step))}
+    others = [r for r in wn_roots.values() if r.key not in step_family]
+    if len(others) != 1:
+        raise Unverifiable(f"before-hook routine (the World-creating routine that is not the step routine): {len(others)}")
+    co = roles.coroutine_of(F, others[0])
+    BT = AT.BeforeTable(F, co)
+
+    def hook_event(e):
+        """'Started' / 'Passed' / 'Failed' if effect e sends a Before-hook event."""
+        if e[0] != "call" or not re.search(r"unbounded_send$|send_event(_with_meta)?$|::send$", e[1]):
+            return None
+        hv = [x for a in e[2] for x in D.subterms(a) if D.is_variant(x, "event::Hook")]
+        ht = [x for a in e[2] for x in D.subterms(a) if D.is_variant(x, "event::HookType")]
+        if hv and (not ht or any(x[2] == "Before" for x in ht)):
+            return hv[0][2]
+        return None
+    X = None
+    for p in BT.paths:
+        for e in p.effects:
+            if AT.is_indirect(e):
+                for x in D.subterms(e[2][0]):
+                    if x[0] == "as" and x[2] == "Some":
+                        X = x[1]
+    if X is None:
+        raise Unverifiable("before-hook routine: no path calls the hook")
+    bad_started = bad_passed = bad_none = None
+    n_set = 0
+    for p in BT.paths:
+        hook_set = [out for a, out in p.conds if a == ("discr", X)]
+        evs = [(i, hook_event(e)) for i, e in enumerate(p.effects) if hook_event(e)]
+        user = [i for i, e in enumerate(p.effects) if AT.is_world_new(e) or AT.is_indirect(e) or e[0] == "caught-panic"]
+        if hook_set != ["Some"]:
+            if evs or user:
+                bad_none = "events are sent or user code runs although no before hook is set"
+            continue
+        n_set += 1
+        st = [i for i, k in evs if k == "Started"]
+        ps = [i for i, k in evs if k == "Passed"]
+        if len(st) != 1 or (user and st[0] > user[0]) or (evs and evs[0][0] != st[0]):
+            bad_started = f"{len(st)} Hook::Started(Before) on a path with a hook set" if len(st) != 1 else "World::new / the hook can run before Hook::Started(Before) is sent"
+        hook_done = [i for i, e in enumerate(p.effects) if AT.is_indirect(e)]
+        panicked = any(e[0] == "caught-panic" for e in p.effects)
+        ok_ret = D.is_variant(p.ret, "std::result::Result", "Ok")
+        if ok_ret and hook_done and not panicked:
+            if len(ps) != 1 or ps[0] < hook_done[-1]:
+                bad_passed = "a before hook that returned normally is not followed by exactly one Hook::Passed(Before)"
+        elif ps:
+            bad_passed = "Hook::Passed(Before) is sent although World creation or the hook failed"
+    R.check(n_set >= 2 and bad_started is None, "before/table/started-first-on-every-path", co, "Started(Before) once, before World::new and the hook, on every path with a hook",
+            "before hook: " + (bad_started or "no path with a hook set"))
+    R.check(bad_passed is None, "before/table/passed-iff-hook-returned", co, "Passed(Before) exactly when World creation and the hook succeeded", "before hook: " + (bad_passed or ""))
+    R.check(bad_none is None, "before/table/nothing-without-hook", co, "no hook: no events, no user code", "before hook: " + (bad_none or ""))
+
+
 def r5(F, R):
     rs, root, tree = roles.attempt_tree(F)
     emit_fns = roles.emitters(F, tree)
@@ -459,13 +525,17 @@ def r5(F, R):
             if hv:
                 out.append((s, t, hv, hk))
         return out
+    before_table_clauses(F, R, tree)
     before = [(b, hook_sends(b)) for b in tree if b.is_coroutine and any("Before" in hk for _, _, _, hk in hook_sends(b))]
     if len(before) != 1:
-        raise Unverifiable(f"before-hook coroutine: {len(before)}")
-    bb, hs = before[0]
+        # the flow-based clauses below speak about one routine sending both events; the table clauses above have decided the
+        # placement of the events on every path whatever the spelling
+        before = []
+    bb, hs = before[0] if before else (None, [])
     started = [(s, t) for s, t, hv, hk in hs if hv == ["Started"]]
     passed = [(s, t) for s, t, hv, hk in hs if hv == ["Passed"]]
-    R.check(len(started) == 1 and len(passed) == 1 and len(hs) == 2, "before/emissions", bb, "Started and Passed only (Failed is deferred)", f"before-hook emissions: {[hv for _, _, hv, _ in hs]}")
+    if bb is not None:
+        R.check(len(started) == 1 and len(passed) == 1 and len(hs) == 2, "before/emissions", bb, "Started and Passed only (Failed is deferred)", f"before-hook emissions: {[hv for _, _, hv, _ in hs]}")
     if len(started) == 1:
         s_s = started[0][0]
         vc = A.vc_at(bb, s_s)
